@@ -290,6 +290,16 @@ package callbacks
 //@   min-sites 2
 //@   assert records-what-the-nested-delete-reported: arg0 == db && tagof(arg1) == nestedErrTag && boxof(arg1) == nestedErrBox [C13,C05]
 
+//@ # ---------- C09: a cascaded delete keeps every condition the relation gives ----------
+//@ # Delete with Select(association): the nested delete is conditioned by the complete list (owner keys IN (...) and,
+//@ # for a polymorphic relation, the owner type). Leaving a member out - an IN over an empty key list selects nothing,
+//@ # the constant owner-type test alone selects every row of that owner type - would widen the delete.
+//@ site cascaded-delete-keeps-every-condition
+//@   match store Where.Exprs
+//@   in callbacks.DeleteBeforeAssociations
+//@   min-sites 2
+//@   assert the-relations-complete-list: arg0 == queryConds [C09]
+
 //@ # ---------- C10: what an upsert refreshes on conflict is admitted by Select/Omit and the field's permissions ----------
 //@ # ON CONFLICT DO UPDATE (UpdateAll) sets the tracked update-time column to now only when the column is in the write
 //@ # set of an update (selected, or unrestricted and not denied: SelectAndOmitColumns(true, true) holds false for a
